@@ -205,5 +205,5 @@ def case(spec, ctx):
 
 
 def shard(ctx):
-    ctx.run_given(param_cases(), case, label="params")
+    ctx.run_given(param_cases(), case, label="params", share=0.3)
     ctx.run_given(fit_cases(), case, examples=ctx.budget["fit_examples"], label="fit")
